@@ -9,10 +9,11 @@ INF = 1000000
 class Enc:
     """float32 times -> integer grid values; TMAX/TMAX_OVL/TMIN become symbolic."""
 
-    def __init__(self):
+    def __init__(self, mul=1.0):
         from kyupy.wave_sim import TMAX, TMIN
         self.TMAX, self.TMIN = float(TMAX), float(TMIN)
         self.offgrid = False
+        self.mul = mul          # times are reported in units of 1/mul (mul a power of two: exact)
 
     def __call__(self, t):
         t = float(t)
@@ -20,6 +21,7 @@ class Enc:
             return INF if t == self.TMAX else INF + 1
         if t <= self.TMIN:
             return -INF
+        t *= self.mul
         if t != int(t) or abs(t) >= 2 ** 20:
             self.offgrid = True
         return int(round(t))
@@ -64,7 +66,8 @@ def run_wave(cls, c, d, lanes, caps, inw, reuse=False, strip=False, actrl=None, 
     w.simctl_int[1] = 0
     if warmup is not None:
         # history: the SAME simulator object has already been used for another stimulus (assign, propagate, capture)
-        assign(w, c, lanes, warmup, via_s)
+        # (hand-written multi-transition warm-up images go straight into the input slots even if the run proper uses s_to_c)
+        assign(w, c, lanes, warmup, via_s and is_stim(warmup))
         w.c_prop(seed=0)
         w.c_to_s()
         if actrl is not None:
